@@ -6,12 +6,17 @@
 (* L1 (Planar!In).  An event carries one shape, a list of query points and  *)
 (* the list of replies.                                                     *)
 (***************************************************************************)
-EXTENDS PlanarImpl, TraceBase
+EXTENDS PlanarImpl, BigKernel, TraceBase
 B2I(x) == IF x THEN 1 ELSE 0
 Exp(e) == [i \in 1..Len(e.pts) |-> B2I(In(e.pts[i], e.shape))]
 Pred(e) == [i \in 1..Len(e.pts) |-> B2I(InL2(e.pts[i], e.shape))]
+\* events marked big: a polygon without holes or a line with coordinates up to 2^20, judged with the limb-arithmetic kernels
+InBig(p, s) == IF Kind(s) = "poly" THEN InRingClosedB(p, s[2])
+               ELSE \E i \in 1..(Len(s[2]) - 1) : OnSegB(p, s[2][i], s[2][i+1])
+ExpBig(e) == [i \in 1..Len(e.pts) |-> B2I(InBig(e.pts[i], e.shape))]
 Judge == pos > 0 =>
    LET e == Trace[pos] IN
-   IF e.got = Exp(e) THEN TRUE
+   IF "big" \in DOMAIN e THEN (e.got = ExpBig(e) \/ PrintT(ToString(<<"MISMATCH", pos, ExpBig(e), ExpBig(e), "large coordinates">>)))
+   ELSE IF e.got = Exp(e) THEN TRUE
    ELSE PrintT(ToString(<<"MISMATCH", pos, Exp(e), Pred(e), "ring.go:ringContainsPoint/poly.go:ContainsPoint">>))
 =============================================================================
